@@ -150,6 +150,8 @@ def gen_scripts(ctx):
         ch = [(b"erly", b"\x01\x02")]
         S.append(("late-%s-small" % cont, "late", cont, C.mk_script(cont, ch, late=[(b"late", b"\x07\x07")], reads=["chunkall h1 null"]), {"chunks": ch, "late": True}))
         S.append(("late-%s-only" % cont, "late", cont, C.mk_script(cont, [], late=[(b"late", payload(rng, 9))], reads=["chunkall h1 null"]), {"chunks": [], "late": True}))
+    from .. import lateset
+    S += lateset.c13_scripts(rng, payload)       # e2. set after audio written through EVERY write entry point (typed items / frames x 4 types, raw), more audio after the refusal
     S.append(("late-caf-big", "late", "caf", C.mk_script("caf", [(b"erly", b"\x01")], late=[(b"late", payload(rng, 5000))], reads=["chunkall h1 null"]), {"chunks": [(b"erly", b"\x01")], "late": True}))
     # f. virtual I/O route (non-empty chunks only: the zero-length read is the known finding)
     for cont in C.CONTAINERS:
@@ -182,8 +184,8 @@ def predicate(cont, script, pairs, meta):
     frames = None
     wrote = False
     for op, ls in pairs:
-        if op[0] == "w":
-            wrote = True
+        if op[0] in ("w", "wraw") and ls and not ls[0].startswith("ret=0 "):
+            wrote = True        # audio went out through ANY of the write entry points (typed items / frames, raw)
         if op[0] == "setchunk" and ls:
             i, d = bytes.fromhex(op[2]), bytes.fromhex(op[3]) if len(op) > 3 else b""
             if ls[0] == "ret=0 err=0":
@@ -195,9 +197,13 @@ def predicate(cont, script, pairs, meta):
                 return "sf_set_chunk (%s) answered '%s'" % (i.hex(), ls[0])
     for op, ls in pairs:
         if op[0] == "w" and ls:
-            frames = int(op[4])
-            if not ls[0].startswith("ret=%d err=0" % frames):
-                return "write of %d items answered '%s'" % (frames, ls[0])
+            frames = (frames or 0) + int(op[4])
+            if not ls[0].startswith("ret=%d err=0" % int(op[4])):
+                return "write of %d items answered '%s'" % (int(op[4]), ls[0])
+        if op[0] == "wraw" and ls:
+            frames = (frames or 0) + int(op[2]) // 2
+            if not ls[0].startswith("ret=%d err=0" % int(op[2])):
+                return "sf_write_raw of %d bytes answered '%s'" % (int(op[2]), ls[0])
         if op[0] == "close" and ls and not ls[0].startswith("ret=0"):
             return "sf_close answered '%s'" % ls[0]
         if op[0] == "open" and op[3] == "r" and ls and not ls[0].startswith("open=ok"):
